@@ -108,6 +108,20 @@ Theorem C02_step_rename_dir_in : forall C, c_faults C = [] -> forall w k r p q w
 Proof. exact step_rename_dir_in. Qed.
 Print Assumptions C02_step_rename_dir_in.
 
+(* Rename of a directory out of the tree: everything under the root is still covered.  The kernel watches of the
+   departed directories and their entries in both maps stay behind - known finding F10 - so the conclusion is Cover,
+   not RSync, and the sequential theorem stops here. *)
+Theorem C02_step_rename_dir_out : forall C w k r p q w' ep, RSync C w k r -> npath p -> npath q -> c_recursive C = true ->
+  N.land IN_MOVED_FROM (c_mask C) <> 0%N -> N.land IN_MOVED_TO (c_mask C) <> 0%N ->
+  apply_op w (Rename p q) = Some w' -> flookup p (w_fs w) = Some ep -> f_dir ep = true ->
+  scope C p -> p <> c_root C -> ~ scope C q ->
+  let k1 := kernel_op k (w_fs w) (Rename p q) in
+  exists r' k' evs, read_batch C (w_fs w') (r, drainq k1, []) (k_queue k1) = Done (r', k', evs) /\
+    wf_fs w' /\ isdir_in (c_root C) (w_fs w') /\ Cover C (w_fs w') k' r' /\ k_queue k' = [] /\
+    wfp r' = wfp r /\ pfw r' = pfw r /\ k_watches k' = k_watches k.
+Proof. exact step_rename_dir_out. Qed.
+Print Assumptions C02_step_rename_dir_out.
+
 (* Rename of a directory under a non-recursive watch, or entirely outside the tree (target absent or an empty
    directory): both maps unchanged *)
 Theorem C02_step_rename_dir_plain : forall C w k r p q w' ep, RSync C w k r -> npath p -> npath q ->
